@@ -177,7 +177,7 @@ func (w *World) importAtGenesisTime(raw []byte, height int64, prop string) {
 	// (a) pending orders: rejected only for a reason the statement knows
 	e := w.M.Ent
 	for _, id := range sortedU64(e.Orders) {
-		if prop != "C15" {
+		if prop != "C15" && prop != "C03" {
 			break
 		}
 		o := e.Orders[id]
@@ -200,7 +200,7 @@ func (w *World) importAtGenesisTime(raw []byte, height int64, prop string) {
 		if rej > len(e.Signers)-int(e.MinAccepts) || (expired && uint64(acc) < e.MinAccepts) {
 			continue
 		}
-		w.Violate("C15", "C15/imported-chain-rejects-pending-order/first-block-at-genesis-time", "order %d (raised at %d, limit %d s, %d accepts, %d rejects of %d signers, min %d) is raised on the exporting chain; the chain started from the export rejects it in its first block, stamped with the unchanged genesis_time %d", id, o.RaiseTime, e.Limit, acc, rej, len(e.Signers), e.MinAccepts, GenesisTS)
+		w.Violate(prop, prop+"/imported-chain-rejects-pending-order/first-block-at-genesis-time", "order %d (raised at %d, limit %d s, %d accepts, %d rejects of %d signers, min %d) is raised on the exporting chain; the chain started from the export rejects it in its first block, stamped with the unchanged genesis_time %d", id, o.RaiseTime, e.Limit, acc, rej, len(e.Signers), e.MinAccepts, GenesisTS)
 		break
 	}
 	// (b) streams: a claim delivered in that first block must not change what later claims pay
@@ -208,6 +208,9 @@ func (w *World) importAtGenesisTime(raw []byte, height int64, prop string) {
 	later := w.Now.Add(time.Hour)
 	sm := w.M.Str
 	for _, k := range sm.keys() {
+		if prop != "C15" && prop != "C11" {
+			break
+		}
 		st := sm.Streams[k]
 		if st.Remaining.Sign() <= 0 {
 			continue
@@ -285,11 +288,41 @@ func (w *World) importAtGenesisTime(raw []byte, height int64, prop string) {
 			break
 		}
 	}
+	// (d) the property's own read-back oracles once that first block is committed: what was recorded
+	// reads back unchanged (C07) and every funded stream can be claimed, cancelled and topped up (C12)
+	// also while the block clock stands before the times held in state
+	if prop != "C07" && prop != "C12" {
+		return
+	}
+	if p, _ := safely(func() {
+		n.App.EndBlock(abci.RequestEndBlock{Height: height})
+		n.releaseDangling()
+		n.App.Commit()
+	}); p != "" {
+		return
+	}
+	w.Probe("c15.first-block-at-genesis-time-committed")
+	wb := &World{IsShadow: true, T: w.T, Actors: w.Actors, Ref: n, Hdr: hdr, Now: gt, M: w.M, St: w.St, PropOverride: w.PropOverride, KnownClasses: w.KnownClasses, BlockIdx: w.BlockIdx, Log: w.Log}
+	for _, m := range w.Mons {
+		switch m.(type) {
+		case *monC07:
+			if prop == "C07" {
+				m.AfterBlock(wb)
+			}
+		case *monC12:
+			if prop == "C12" {
+				m.AfterBlock(wb)
+			}
+		}
+	}
+	for _, v := range wb.Viol {
+		w.Violate(v.Property, v.Class+"/first-block-at-genesis-time", "on the chain initialised from the export of height %d, in its first block (stamped with the unchanged genesis_time %d): %s", w.Ref.Height, GenesisTS, v.Detail)
+	}
 }
 
-// importForC11: C11's release arithmetic also has to hold on a chain restarted from an export whose
+// importForProp (C11, C03, C12, C07): the property's oracles - C11's release arithmetic, say - also have to hold on a chain restarted from an export whose
 // first block carries the unchanged genesis time (block time earlier than every stream's last release).
-func (w *World) importForC11() {
+func (w *World) importForProp(prop string) {
 	var raw []byte
 	var height int64
 	if p, _ := safely(func() {
@@ -306,7 +339,7 @@ func (w *World) importForC11() {
 	}); p != "" {
 		return
 	}
-	w.importAtGenesisTime(raw, height, "C11")
+	w.importAtGenesisTime(raw, height, prop)
 }
 
 // importLater: a chain is restarted from an export some time after the export was taken (the
@@ -336,8 +369,9 @@ func (w *World) takeFork() {
 	if w.armedShadow && w.shadow == nil {
 		w.takeShadow()
 	}
-	if w.PropOverride == "C11" {
-		w.importForC11()
+	switch w.PropOverride {
+	case "C11", "C03", "C12", "C07":
+		w.importForProp(w.PropOverride)
 	}
 	if !w.armedC15 || w.Fork != nil {
 		return
